@@ -133,6 +133,33 @@ func (env *Env) elab(x Expr) Val {
 		}
 		return Val{T: fmt.Sprintf("(str.substr %s %s (- %s %s))", v.T, lo, hi, lo), Ty: tyString}
 	case *EQuant:
+		if e.boundK > 0 {
+			allInt := true
+			for _, p := range x.Vars {
+				if !(p.T.Kind == "name" && p.T.Pkg == "" && p.T.Name == "int") {
+					allInt = false
+				}
+			}
+			if allInt && len(x.Vars) <= 2 {
+				// bounded-instance mode (counter-model search only): integer quantifiers range over 0..K-1
+				var parts []string
+				var rec func(i int, en *Env)
+				rec = func(i int, en *Env) {
+					if i == len(x.Vars) {
+						parts = append(parts, en.elabBool(x.Body))
+						return
+					}
+					for k := 0; k < e.boundK; k++ {
+						rec(i+1, en.with(x.Vars[i].Name, Val{T: smtInt(int64(k)), Ty: tyInt}))
+					}
+				}
+				rec(0, env)
+				if x.Forall {
+					return Val{T: and(parts...), Ty: tyBool}
+				}
+				return Val{T: or(parts...), Ty: tyBool}
+			}
+		}
 		n := *env
 		n.Vars = make(map[string]Val, len(env.Vars)+len(x.Vars))
 		for k, v := range env.Vars {
